@@ -123,6 +123,7 @@ class Profile:
     p_pickup: float = 0.2
     bar_numbers: float = 0.6
     p_odd_numbering: float = 0.3         # measure numbers that do not count 1, 2, 3 ...: an offset, leading zeros, repeats, any order
+    p_bar_suffix: float = 0.0            # explored class (C03): the marks the grammar tolerates at the end of a barline (j . ?)
     p_hidden_bar: float = 0.0            # invisible barlines (=-, =1-): only the measure-structure checks turn this on
     hostile: float = 0.5
     hostile_text: float = 0.25
@@ -375,6 +376,10 @@ class _Gen:
         hidden = (not double) and p.p_hidden_bar > 0 and rng.random() < p.p_hidden_bar
         if hidden:
             self.doc.tags.add('hidden_barlines')
+        suffix = ''
+        if p.p_bar_suffix and not hidden and rng.random() < p.p_bar_suffix:
+            suffix = rng.choice(['j', '.', '?', 'j.', '.?'])
+            self.doc.tags.add('barline_suffix')
         cells = []
         for c in range(len(self.paths)):
             t, n_, f = typ, num, ferm
@@ -387,8 +392,8 @@ class _Gen:
                     f = '' if f else ';'
                 self.doc.tags.add('barline_row_with_different_cells')
             # the whole row is invisible or none of it is; kernpy replaces an invisible barline by a null on export
-            cells.append(Cell('bar', f'{eq}{n_}{"-" if hidden else ""}{t}{f}',
-                              obj={'eq': eq, 'num': n_, 'type': t, 'fermata': f, 'hidden': hidden}))
+            cells.append(Cell('bar', f'{eq}{n_}{"-" if hidden else ""}{t}{f}{suffix}',
+                              obj={'eq': eq, 'num': n_, 'type': t, 'fermata': f, 'hidden': hidden, 'suffix': suffix}))
         self.add(Line('bar', cells))
 
     def fcomment_line(self):
